@@ -374,8 +374,10 @@ class _CEval(Evaluator):
             return TypeVal(int(m.group(1)))
         if n in _BUILTINS:
             return _BUILTINS[n]
-        if n in ('connect', 'connect_pairs'):
+        if n in ('connect', 'connect_pairs', 'hasattr', 'setattr', 'getattr'):
             return Builtin(n, None)
+        if n == 'str':
+            return Builtin('str', str)
         r = self.elab.repo.resolve(c.mod, n)
         if r is not None and isinstance(r[1], ast.ClassDef):
             return ClassRef(r[0], r[1])
@@ -484,6 +486,24 @@ class _CEval(Evaluator):
                     raise AnalysisError(f"connect with {len(args)} arguments")
                 self.elab.connect(self.nl, args[0], args[1], self.ctx)
                 return None
+            if fn.name in ('hasattr', 'setattr', 'getattr'):
+                # attribute bookkeeping on a model object (e.g. naming an inserted adapter on its parent)
+                if kwargs or len(args) < 2 or not isinstance(args[0], Inst) or not isinstance(args[1], str):
+                    raise AnalysisError(f"{fn.name} outside the construct model: {norm(e)}")
+                obj, name = args[0], args[1]
+                if fn.name == 'hasattr' and len(args) == 2:
+                    return name in obj.attrs
+                if fn.name == 'setattr' and len(args) == 3:
+                    self.elab._adopt(obj, name, args[2])
+                    obj.attrs[name] = args[2]
+                    return None
+                if fn.name == 'getattr' and len(args) in (2, 3):
+                    if name in obj.attrs:
+                        return obj.attrs[name]
+                    if len(args) == 3:
+                        return args[2]
+                    raise ModelFault(f"{obj.path} has no attribute {name} ({norm(e)})")
+                raise AnalysisError(f"{fn.name} outside the construct model: {norm(e)}")
             if fn.name == 'connect_pairs':
                 if len(args) % 2 or kwargs:
                     raise ModelFault(f"connect_pairs with an odd number of arguments: {norm(e)}")
@@ -774,6 +794,12 @@ class Elaborator:
                 continue
             if isinstance(st, ast.AugAssign) and isinstance(st.op, ast.FloorDiv):
                 self.connect(nl, ev.ev(st.target), ev.ev(st.value), ctx)
+                continue
+            if isinstance(st, ast.AugAssign) and isinstance(st.op, (ast.Add, ast.Sub)):
+                cur, inc = ev.ev(st.target), ev.ev(st.value)
+                if not all(isinstance(x, int) and not isinstance(x, bool) for x in (cur, inc)):
+                    raise AnalysisError(f"{ctx.inst.clsname}: augmented assignment outside the model: {norm(st)}")
+                self._assign(nl, ev, st.target, cur + inc if isinstance(st.op, ast.Add) else cur - inc)
                 continue
             if isinstance(st, ast.Expr) and isinstance(st.value, ast.Call):
                 ev.ev(st.value)
